@@ -161,9 +161,10 @@ PROPS = {
                     'dispatches on the implementation compared with each other and with the model.',
     ),
     'C01': dict(
-        domains=[dict(name='route', quick=32000, thorough=800000)],
+        domains=[dict(name='route', quick=32000, thorough=800000), dict(name='disp', quick=2400, thorough=60000)],
+        race_domains=[dict(name='disp', quick=360, thorough=9000, args=['-force-conc'])],
         verdicts=['c01_*'],
-        project={'route': proj_route_c01},
+        project={'route': proj_route_c01, 'disp': proj_disp_c06},
         prop_files=['props/C01.v'],
         trivial_classes=('404',),
         rule=RULE_ROUTE, trusted_base=TB_ROUTING,
